@@ -7,8 +7,11 @@ import hmac
 
 
 class Curve:
-    def __init__(self, p, n, g, name=""):
+    def __init__(self, p, n, g, name="", a=0, b=7):
+        """y^2 = x^3 + a*x + b over F_p; a, b default to the secp256k1 shape (0, 7).  The Jacobian
+        formulas below assume a == 0; for a != 0 mul() falls back to the affine law."""
         self.p, self.n, self.g, self.name = p, n, g, name
+        self.a, self.b = a, b
         self.nlen = n.bit_length()
 
     # --- affine group law (the specification) -------------------------------------
@@ -16,7 +19,7 @@ class Curve:
         if P is None:
             return True
         x, y = P
-        return 0 <= x < self.p and 0 <= y < self.p and (y * y - x * x * x - 7) % self.p == 0
+        return 0 <= x < self.p and 0 <= y < self.p and (y * y - x * x * x - self.a * x - self.b) % self.p == 0
 
     def neg(self, P):
         if P is None:
@@ -34,7 +37,7 @@ class Curve:
         if x1 == x2:
             if (y1 + y2) % p == 0:
                 return None
-            lam = 3 * x1 * x1 * pow(2 * y1, -1, p) % p
+            lam = (3 * x1 * x1 + self.a) * pow(2 * y1, -1, p) % p
         else:
             lam = (y2 - y1) * pow(x2 - x1, -1, p) % p
         x3 = (lam * lam - x1 - x2) % p
@@ -106,6 +109,8 @@ class Curve:
         k %= self.n
         if k == 0:
             return None
+        if self.a:
+            return self.mul_affine(k, P)
         R = (0, 1, 0)
         Q = (P[0], P[1], 1)
         for bit in bin(k)[2:]:
@@ -129,7 +134,7 @@ class Curve:
     def lift_x(self, x, odd=False):
         if not (0 <= x < self.p):
             return None
-        y = self.sqrt((x * x * x + 7) % self.p)
+        y = self.sqrt((x * x * x + self.a * x + self.b) % self.p)
         if y is None:
             return None
         if (y & 1) != (1 if odd else 0):
@@ -404,6 +409,25 @@ def selftest():
             for P in pts:
                 for Q in pts:
                     assert t.add(P, Q) == t.add(Q, P) and t.add(P, Q) in seen
+    # general short Weierstrass curves (optional a, b): closure, commutativity, associativity, inverses and the
+    # group order annihilating every point, on every non-singular curve over F_5, F_7 and F_11
+    for p in (5, 7, 11):
+        for a in range(p):
+            for b in range(p):
+                if (4 * a**3 + 27 * b * b) % p == 0:
+                    continue
+                w = Curve(p, 0, None, a=a, b=b)
+                pts = [None] + [(x, y) for x in range(p) for y in range(p) if (y * y - x**3 - a * x - b) % p == 0]
+                assert all(w.on_curve(P) for P in pts) and abs(len(pts) - (p + 1)) <= 2 * p**0.5
+                ps = set(pts)
+                for P in pts:
+                    assert w.add(P, w.neg(P)) is None and w.add(P, None) == P and w.mul_affine(len(pts), P) is None
+                    assert w.mul_affine(-3, P) == w.neg(w.add(P, w.add(P, P)))
+                    for Q in pts:
+                        assert w.add(P, Q) == w.add(Q, P) and w.add(P, Q) in ps
+                        if p <= 7:
+                            for R in pts:
+                                assert w.add(w.add(P, Q), R) == w.add(P, w.add(Q, R))
     return True
 
 
